@@ -23,6 +23,14 @@ fn deep_block(lang: &str, depth: usize) -> String {
         "jsonish" => format!("{}7{}", "[".repeat(depth), "]".repeat(depth)),
         "stmt" => format!("{}x = 7;{}", "{ ".repeat(depth), " }".repeat(depth)),
         "arith" => format!("{}7{};", "(".repeat(depth), ")".repeat(depth)),
+        "pyish" => {
+            let mut t = String::new();
+            for d in 0..depth {
+                t.push_str(&format!("{}if a:\n", " ".repeat(d)));
+            }
+            t.push_str(&format!("{}7\n", " ".repeat(depth)));
+            t
+        }
         "cdecl" => format!("{}t * p; x * 7;{}", "{ ".repeat(depth), " }".repeat(depth)),
         _ => String::new(),
     }
@@ -41,17 +49,22 @@ fn build_doc(b: &zoo::Built, lang: &str, tokens: usize, seed: u64) -> Vec<u8> {
     while total < tokens && guard < tokens * 4 + 100 {
         guard += 1;
         let toks = gg.sentence(&mut rng, 12);
-        if toks.is_empty() {
+        if toks.is_empty() && lang != "pyish" {
             continue;
         }
-        let (text, _) = gg.render(&toks, &mut rng);
+        let (mut text, _) = gg.render(&toks, &mut rng);
+        let mut ntoks = toks.len();
+        if lang == "pyish" {
+            text = gen_pyish(&mut rng, 12);
+            ntoks = text.split(|b: &u8| b.is_ascii_whitespace() || *b == b'(' || *b == b')' || *b == b',' || *b == b':').filter(|w| !w.is_empty()).count() * 2;
+        }
         // keep only error-free units (the property is about error-free documents)
         match probe.parse(&text, None) {
             Some(t) if !t.root_node().has_error() => {}
             _ => continue,
         }
-        total += toks.len();
-        units.push((text, toks.len()));
+        total += ntoks;
+        units.push((text, ntoks));
     }
     let mut doc = Vec::new();
     let half = units.len() / 2;
@@ -63,12 +76,66 @@ fn build_doc(b: &zoo::Built, lang: &str, tokens: usize, seed: u64) -> Vec<u8> {
         }
         if i == half {
             doc.extend_from_slice(deep_block(lang, depth).as_bytes());
-            doc.push(b'\n');
+            if !doc.ends_with(b"\n") {
+                doc.push(b'\n');
+            }
         }
         doc.extend_from_slice(u);
         doc.push(b'\n');
     }
     doc
+}
+
+fn py_expr(rng: &mut Rng) -> String {
+    let id = *rng.pick(&["a", "b", "foo", "x_y", "ifx", "z"]);
+    match rng.below(5) {
+        0 => format!("{}", rng.below(100)),
+        1 => format!("{id}()"),
+        2 => format!("{id}({})", rng.below(10)),
+        _ => id.to_string(),
+    }
+}
+
+fn py_block(rng: &mut Rng, indent: usize, budget: &mut isize, depth: usize, out: &mut String) {
+    let n = 1 + rng.below(3);
+    for _ in 0..n {
+        out.push_str(&" ".repeat(indent));
+        let kind = if *budget > 3 && depth < 5 { rng.below(5) } else { 0 };
+        match kind {
+            3 | 4 => {
+                *budget -= 4;
+                let step = *rng.pick(&[1usize, 2, 4]);
+                let kw = if kind == 3 { "if" } else { "while" };
+                out.push_str(&format!("{kw} {}:\n", py_expr(rng)));
+                py_block(rng, indent + step, budget, depth + 1, out);
+                if kind == 3 && rng.chance(1, 3) {
+                    out.push_str(&" ".repeat(indent));
+                    out.push_str("else:\n");
+                    py_block(rng, indent + step, budget, depth + 1, out);
+                }
+            }
+            _ => {
+                *budget -= 2;
+                out.push_str(&py_expr(rng));
+                if rng.chance(1, 4) {
+                    out.push_str(&format!(", {}", py_expr(rng)));
+                }
+                out.push('\n');
+                if rng.chance(1, 8) {
+                    out.push('\n');
+                }
+            }
+        }
+    }
+}
+
+fn gen_pyish(rng: &mut Rng, budget: usize) -> Vec<u8> {
+    let mut out = String::new();
+    let mut b = budget as isize;
+    while b > 0 {
+        py_block(rng, 0, &mut b, 0, &mut out);
+    }
+    out.into_bytes()
 }
 
 fn leaves(tree: &Tree) -> Vec<(usize, usize, usize)> {
@@ -233,7 +300,7 @@ fn main() {
     }
     let seed = seed_from_env();
     let sizes: &[usize] = if tier_is_thorough() { &[1000, 10000, 100000] } else { &[1000, 10000] };
-    for lang in ["lst", "arith", "jsonish", "stmt", "cdecl"] {
+    for lang in ["lst", "arith", "jsonish", "stmt", "cdecl", "pyish"] {
         let b = match zoo::load(lang) {
             Ok(b) => b,
             Err(e) => {
